@@ -26,7 +26,7 @@ try:
         print("patch does not apply:", ap.stderr[:300])
         sys.exit(8)
     r1 = subprocess.run(["/venv/bin/python", f"{src}/demo.py"], env=env, capture_output=True, text=True, timeout=1800, cwd=w).returncode
-    chk = subprocess.run(["./check", pid], env=dict(os.environ, VERIF_REPO=w), capture_output=True, text=True, timeout=7200, cwd=V)
+    chk = subprocess.run(["./check", pid], env=dict(os.environ, VERIF_REPO=w, VERIF_EVIDENCE_DIR="/tmp/verif_scratch_evidence"), capture_output=True, text=True, timeout=7200, cwd=V)
     lines = [l for l in chk.stdout.splitlines() if l.startswith(("VIOLATION", "UNDECIDED", "[C"))]
     detected = []
     for l in lines:
